@@ -425,6 +425,75 @@ def check_key2jwk(chk, prog, model):
     chk.rule('C20.ec-width', 'key2jwk: x, y, d of an EC key are written with a minimum width of ceil(bits/8) octets, honoured by get_one_bn', n, bad, floor=12)
 
 
+def check_oct_export(chk, prog, model):
+    """key2jwk, raw (HMAC) key files: the octets handed to the JWK writer are the file buffer with exactly the length fread() returned"""
+    unit = 'tools/key2jwk.c'
+    prog.func(unit, 'parse_one_file')
+    prog.func(unit, 'process_hmac_key')
+    n = 0
+    bad = 0
+    seen = []
+    nread = Term(('nread',))
+
+    def h_hmac(it, st, args, node):
+        seen.append((args[1], args[2], st.ts.get('buf'), node_loc(node)))
+        return [(st, Int(0))]
+
+    def h_fread(it, st, args, node):
+        st.ts['buf'] = vkey(args[0])
+        st.cons[nread.k] = (('>=', 0),)
+        return [(st, nread)]
+    null = lambda it, st, a, nd: [(st, NULL)]
+    zero = lambda it, st, a, nd: [(st, Int(0))]
+    hooks = {'process_hmac_key': h_hmac, 'fread': h_fread, 'PEM_read_PUBKEY': null, 'PEM_read_PrivateKey': null,
+             'fopen': lambda it, st, a, nd: [(st, Term(('fp',), ptr=True))], 'exit': lambda it, st, a, nd: [],
+             'print_openssl_errors_and_exit': lambda it, st, a, nd: [], 'perror': zero, 'fprintf': zero, 'fclose': zero, 'rewind': zero,
+             'fseek': zero, 'ftell': lambda it, st, a, nd: [(st, Term(('flen',)))],
+             'json_object': lambda it, st, a, nd: [(st, Term(('jwk',), ptr=True))], 'json_array': lambda it, st, a, nd: [(st, Term(('arr',), ptr=True))],
+             'json_string': lambda it, st, a, nd: [(st, Term(('js',), ptr=True))], 'json_object_set_new': zero, 'json_array_append_new': zero,
+             'uuidv4': lambda it, st, a, nd: [(st, Str('u\0'))]}
+
+    class R(Rule):
+        alloc_may_fail = False
+
+        def keep_event(self, ev):
+            return False
+    it = Interp(prog, unit, model=model, rule=R(), hooks=hooks)
+    st = State()
+    st.ptrfact[('fp',)] = 'nonnull'
+    it.run('parse_one_file', [Term(('file',), ptr=True)], st)
+    if not seen:
+        raise AnalysisBroken('key2jwk: the raw-key path of parse_one_file no longer reaches process_hmac_key')
+    for key, ln, buf, (f, l) in seen:
+        n += 1
+        if buf is None or vkey(key) != buf:
+            bad += 1
+            chk.add(Finding('C20.oct-export', f or unit, 'parse_one_file', 'buffer', 'the key handed to the JWK writer is %r, not the buffer fread() filled' % (key,), line=l))
+        if vkey(ln) != vkey(nread):
+            bad += 1
+            chk.add(Finding('C20.oct-export', f or unit, 'parse_one_file', 'length',
+                            'the key length handed to the JWK writer is %r, not the number of bytes fread() returned: the exported k is not the '
+                            'key in the file' % (ln,), line=l))
+    # process_hmac_key encodes exactly (key, len)
+    enc = []
+
+    def h_enc(it, st, args, node):
+        enc.append((args[1], args[2]))
+        return [(st, Int(1))]
+    it = Interp(prog, unit, model=model, rule=R(), hooks={'jwt_base64uri_encode': h_enc, 'json_string': hooks['json_string'],
+                                                         'json_object_set_new': zero, '__jwt_freemem': zero})
+    k, l_ = Term(('key',), ptr=True), Term(('len',))
+    it.run('process_hmac_key', [Term(('jwk',), ptr=True), k, l_], State())
+    if not enc:
+        raise AnalysisBroken('key2jwk: process_hmac_key no longer encodes the key')
+    for a, b in enc:
+        n += 1
+        if vkey(a) != vkey(k) or vkey(b) != vkey(l_):
+            bad += 1
+            chk.add(Finding('C20.oct-export', unit, 'process_hmac_key', 'encode-operands', 'k is the encoding of (%r, %r), not of the key and its length' % (a, b)))
+    chk.rule('C20.oct-export', 'key2jwk raw keys: k encodes exactly the bytes fread() returned', n, bad, floor=2)
+
+
 def check_jwk2key(chk, prog, model):
     unit = 'tools/jwk2key.c'
     prog.func(unit, 'write_key_file')
@@ -497,6 +566,7 @@ def run(chk, prog, tier):
     chk.guard('stdin lines', check_stdin_lines, chk, prog, model)
     chk.guard('key2jwk widths', check_key2jwk, chk, prog, model)
     chk.guard('jwk2key provenance', check_jwk2key, chk, prog, model)
+    chk.guard('key2jwk raw keys', check_oct_export, chk, prog, model)
     chk.assumptions += ['behaviour of the built binaries (exit codes observed, tokens accepted, files written) is process-level and NOT decided']
     return chk.finish(
         'Structural clauses for the four tools.',
